@@ -147,7 +147,18 @@ def _helper_ok(g: FunctionInfo) -> bool:
 def _free_names_agree(prog: Program, g: FunctionInfo, f: FunctionInfo, local: Set[str]) -> bool:
     if g.module is f.module:
         return True
-    for n in _own_nodes(g.node):
+    body_nodes = []
+    for st in g.node.body:
+        # names that occur only in annotations do not matter for the analysis
+        for n in [st] + list(_own_nodes(st)):
+            body_nodes.append(n)
+    ann = set()
+    for n in body_nodes:
+        if isinstance(n, ast.AnnAssign):
+            ann |= {id(x) for x in ast.walk(n.annotation)}
+    for n in body_nodes:
+        if id(n) in ann:
+            continue
         if isinstance(n, ast.Name) and isinstance(n.ctx, ast.Load) and n.id not in local and n.id not in _BUILTINS:
             a = g.module.imports.get(n.id)
             b = f.module.imports.get(n.id)
@@ -252,6 +263,51 @@ def _bind(g: FunctionInfo, call: ast.Call, recv: Optional[ast.AST]) -> Optional[
                 return None
             out[p] = d
     return out
+
+
+def _bool_ifexp(t: ast.AST, a: ast.AST, b: ast.AST) -> ast.AST:
+    """`a if t else b`, read as a truth value, as and/or/not."""
+    def const(x, v):
+        return isinstance(x, ast.Constant) and x.value is v
+
+    def neg(x):
+        return x.operand if isinstance(x, ast.UnaryOp) and isinstance(x.op, ast.Not) else ast.UnaryOp(op=ast.Not(), operand=x)
+
+    if const(a, False) or const(a, None):
+        return ast.BoolOp(op=ast.And(), values=[neg(t), b]) if not (const(b, True)) else neg(t)
+    if const(a, True):
+        return ast.BoolOp(op=ast.Or(), values=[t, b]) if not const(b, False) else t
+    if const(b, False) or const(b, None):
+        return ast.BoolOp(op=ast.And(), values=[t, a])
+    if const(b, True):
+        return ast.BoolOp(op=ast.Or(), values=[neg(t), a])
+    return ast.BoolOp(op=ast.Or(), values=[ast.BoolOp(op=ast.And(), values=[t, a]), ast.BoolOp(op=ast.And(), values=[neg(copy.deepcopy(t)), b])])
+
+
+def _predicate_expr(stmts: List[ast.stmt]) -> ast.AST:
+    """The truth value a pure predicate (only `if` / `return <expr>` statements) returns, as one boolean expression."""
+    if not stmts:
+        return ast.Constant(value=None)
+    st = stmts[0]
+    if isinstance(st, ast.Return):
+        return copy.deepcopy(st.value) if st.value is not None else ast.Constant(value=None)
+    if isinstance(st, ast.If):
+        then = _predicate_expr(list(st.body) + list(stmts[1:]))
+        els = _predicate_expr(list(st.orelse) + list(stmts[1:]))
+        return _bool_ifexp(copy.deepcopy(st.test), then, els)
+    if isinstance(st, ast.Pass):
+        return _predicate_expr(stmts[1:])
+    raise NotEligible("predicate body contains other statements")
+
+
+def _simple_arg(e: ast.AST) -> bool:
+    if isinstance(e, (ast.Name, ast.Constant)):
+        return True
+    if isinstance(e, ast.Attribute):
+        return _simple_arg(e.value)
+    if isinstance(e, ast.Subscript):
+        return _simple_arg(e.value) and _simple_arg(e.slice)
+    return False
 
 
 class Inliner:
@@ -401,12 +457,58 @@ class Inliner:
             i += 1
         return changed
 
+    def expand_predicates(self, f: FunctionInfo) -> bool:
+        """`if not is_valid(x): raise ...` with a new, pure predicate helper: the call is replaced by the predicate's boolean
+        expression over the arguments (only inside the tests of if / while / assert statements)."""
+        inl = self
+        changed = [False]
+
+        class T(ast.NodeTransformer):
+            def visit_Call(self, c: ast.Call):
+                self.generic_visit(c)
+                r = _resolve_helper(inl.prog, f, c, inl.known)
+                if r is None:
+                    return c
+                g, recv = r
+                if g.node.args.kwarg is not None or not all(_simple_arg(a) for a in c.args) or not all(_simple_arg(k.value) for k in c.keywords):
+                    return c
+                binding = _bind(g, c, recv)
+                if binding is None:
+                    return c
+                body = list(g.node.body)
+                if body and isinstance(body[0], ast.Expr) and isinstance(body[0].value, ast.Constant) and isinstance(body[0].value.value, str):
+                    body = body[1:]
+                if _stored_names(body):
+                    return c  # locals: not a pure expression
+                try:
+                    expr = _predicate_expr(body)
+                except NotEligible:
+                    return c
+                if not _free_names_agree(inl.prog, g, f, set(binding)):
+                    return c
+                new = _Rename(dict(binding)).visit(expr)  # type: ignore[arg-type]
+                ast.copy_location(new, c)
+                for x in ast.walk(new):
+                    if not hasattr(x, "lineno"):
+                        ast.copy_location(x, c)
+                ast.fix_missing_locations(new)
+                inl.expanded[g.qualname] = inl.expanded.get(g.qualname, 0) + 1
+                inl.log.append(f"{f.qualname}: expanded predicate {g.short} at line {getattr(c, 'lineno', '?')}")
+                changed[0] = True
+                return new
+
+        for n in _own_nodes(f.node):
+            if isinstance(n, (ast.If, ast.While, ast.Assert, ast.IfExp)):
+                n.test = T().visit(n.test)
+        return changed[0]
+
     def run(self) -> None:
         funcs = list(self.prog.all_functions(include_inlined=True))
         for _round in range(MAX_ROUNDS):
             changed = False
             for f in funcs:
                 changed |= self.expand_block(f, f.node.body)
+                changed |= self.expand_predicates(f)
             if not changed:
                 break
         # helpers that are no longer called anywhere are accounted for in their callers
